@@ -32,8 +32,8 @@ LAYOUTS = ["one", "samples", "features", "both", "elements"]
 
 
 @st.composite
-def strategy(draw):
-    cls = draw(st.sampled_from(CLASSES))
+def strategy(draw, cls=None):
+    cls = cls or draw(st.sampled_from(CLASSES))  # (the runner stratifies: every shard runs its slice of CLASSES, one class at a time)
     layout = draw(st.sampled_from(LAYOUTS))
     small = layout in ("elements", "both")
     # (two features rotated as two modes: the varimax update matrix is a multiple of an orthogonal matrix or exactly zero,
